@@ -119,3 +119,30 @@ func HarnessC03Progress(n, size, api, kind int) {
 	}
 	vreach("C03.progress.end")
 }
+
+// HarnessC03PacketAF: parsePacket on a packet whose header is arbitrary, whose adaptation_field_length is the given
+// value and whose adaptation field bytes (flags, PCR, private-data length, extension ...) are all arbitrary:
+// no panic, and on success the payload is what lies behind the declared adaptation field
+func HarnessC03PacketAF(afLen, size int) {
+	b := vnondetBytes(size)
+	b[0] = 0x47
+	b[size-188+4] = byte(afLen)
+	// keep the symbolic part to the adaptation field: the rest of the packet is fixed junk
+	lim := size - 188 + 5 + afLen
+	if lim > size-188+5+40 {
+		lim = size - 188 + 5 + 40 // optional fields of an adaptation field take at most 40 bytes before stuffing / private data run on
+	}
+	for i := lim; i < size; i++ {
+		b[i] = 0xA5
+	}
+	p, err := parsePacket(astikitIter(b), nil)
+	if err == nil {
+		vassert("C03.packetaf.result", p != nil)
+		if p.Header.HasAdaptationField && p.Header.HasPayload {
+			vassert("C03.packetaf.payload", len(p.Payload) == 188-5-afLen || (afLen > 183 && len(p.Payload) == 0))
+		}
+		vreach("C03.packetaf.ok")
+	} else {
+		vreach("C03.packetaf.err")
+	}
+}
